@@ -35,6 +35,7 @@ func errPathsSorted(o *Outcome) []string {
 }
 
 func runC02(c *run.Ctx) {
+	defer c02Methods(c)
 	defer c02Farm(c)
 	c.Rule = "each generated tuple is served by interface resolvers, a root (any) resolver, reflection over dynamically built and registered struct types, and three per-node mixtures " +
 		"(iface+any, iface+reflect, reflect-capable structs with an AnyResolver installed); oracle: pairwise equality of canonical data and of sorted error paths, plus the call log " +
@@ -211,3 +212,153 @@ func c02Farm(c *run.Ctx) {
 }
 
 var _ = model.Scalar
+
+// c02Methods: reflection METHODS (by name, by @go, and bound with RegisterType/RegisterField with renamed methods and
+// re-ordered parameters). The oracle is the Go method itself: it is called directly with the generated argument values and
+// its answer must equal what the request answers, however the arguments are written (any order, literal / variable /
+// variable default, omitted = zero value or the declared default).
+func c02Methods(c *run.Ctx) {
+	n := c.N(400, 15000)
+	for i := 0; i < n && !c.TooMany(); i++ {
+		r := c.Rand(4000000 + i)
+		root, zr, err := zoo.NewRoot()
+		if err != nil {
+			c.Violation("c02-zoo-schema", map[string]interface{}{"error": err.Error()})
+			return
+		}
+		type argSpec struct {
+			name string
+			typ  string // Int | String | Boolean
+			val  interface{}
+			omit bool
+		}
+		ival := func() int { return []int{0, 1, -1, 7, 42, -300, 2147483647, -2147483648, r.Intn(1000)}[r.Intn(9)] }
+		sval := func() string {
+			return []string{"", "bob", "with space", "quote\"d", "back\\slash", "üñí", "😀", "new\nline", "tab\t"}[r.Intn(9)]
+		}
+		kind := r.Intn(7)
+		var field, op string
+		var args []argSpec
+		var expect func(a map[string]interface{}) interface{}
+		sub := ""
+		op = "query"
+		switch kind {
+		case 0:
+			field = "add"
+			args = []argSpec{{name: "a", typ: "Int", val: ival() % 100000}, {name: "b", typ: "Int", val: ival() % 100000}}
+			expect = func(a map[string]interface{}) interface{} { return zr.Query.Add(a["a"].(int), a["b"].(int)) }
+		case 1:
+			field, op = "diff", "mutation"
+			args = []argSpec{{name: "a", typ: "Int", val: ival() % 100000}, {name: "b", typ: "Int", val: ival() % 100000}}
+			expect = func(a map[string]interface{}) interface{} { return zr.Mutation.Minus(a["b"].(int), a["a"].(int)) }
+		case 2:
+			field = "hello"
+			args = []argSpec{{name: "name", typ: "String", val: sval()}}
+			expect = func(a map[string]interface{}) interface{} { return zr.Query.Hello(a["name"].(string)) }
+		case 3:
+			field = "label"
+			args = []argSpec{{name: "prefix", typ: "String", val: sval()}, {name: "upper", typ: "Boolean", val: r.Intn(2) == 0}}
+			expect = func(a map[string]interface{}) interface{} {
+				return zr.Query.Label(a["prefix"].(string), a["upper"].(bool))
+			}
+		case 4:
+			field, sub = "pick", " { id size }"
+			args = []argSpec{{name: "i", typ: "Int", val: []int{0, 1, 2, -1, 5}[r.Intn(5)]}}
+			expect = func(a map[string]interface{}) interface{} {
+				it := zr.Query.Pick(int32(a["i"].(int)))
+				if it == nil {
+					return nil
+				}
+				return map[string]interface{}{"id": it.ID, "size": it.Size}
+			}
+		case 5:
+			field, op = "bump", "mutation"
+			args = []argSpec{{name: "by", typ: "Int", val: ival() % 100000}}
+			expect = func(a map[string]interface{}) interface{} { return zr.Mutation.Bump(int32(a["by"].(int))) }
+		default:
+			field, op = "renamed", "mutation"
+			expect = func(a map[string]interface{}) interface{} { return zr.Mutation.OtherName() }
+		}
+		// how each argument is written
+		vars := map[string]interface{}{}
+		var vdefs, parts []string
+		eff := map[string]interface{}{}
+		lit := func(a argSpec) string {
+			return model.ValueText(func() interface{} {
+				if iv, isI := a.val.(int); isI {
+					return int64(iv)
+				}
+				return a.val
+			}())
+		}
+		for ai := range args {
+			a := &args[ai]
+			eff[a.name] = a.val
+			required := field == "label" && a.name == "prefix"
+			switch form := r.Intn(5); {
+			case form == 0 && !required:
+				a.omit = true
+				switch a.typ {
+				case "Int":
+					eff[a.name] = 0
+				case "String":
+					eff[a.name] = ""
+				default:
+					eff[a.name] = false // also the declared default of label.upper
+				}
+			case form == 1:
+				vn := "v" + a.name
+				vdefs = append(vdefs, fmt.Sprintf("$%s: %s", vn, a.typ))
+				if iv, isI := a.val.(int); isI {
+					if r.Intn(2) == 0 {
+						vars[vn] = float64(iv)
+					} else {
+						vars[vn] = iv
+					}
+				} else {
+					vars[vn] = a.val
+				}
+				parts = append(parts, fmt.Sprintf("%s: $%s", a.name, vn))
+			case form == 2:
+				vn := "d" + a.name
+				vdefs = append(vdefs, fmt.Sprintf("$%s: %s = %s", vn, a.typ, lit(*a)))
+				parts = append(parts, fmt.Sprintf("%s: $%s", a.name, vn))
+			default:
+				parts = append(parts, fmt.Sprintf("%s: %s", a.name, lit(*a)))
+			}
+		}
+		r.Shuffle(len(parts), func(x, y int) { parts[x], parts[y] = parts[y], parts[x] })
+		text := op
+		if len(vdefs) > 0 {
+			text += "(" + strings.Join(vdefs, ", ") + ")"
+		}
+		text += " { r: " + field
+		if len(parts) > 0 {
+			text += "(" + strings.Join(parts, ", ") + ")"
+		}
+		text += sub + " }"
+		want := ref.Canon(expect(eff))
+		var res map[string]interface{}
+		pv, _ := run.Protect(func() {
+			if i%2 == 0 {
+				res = root.ResolveString(text, "", copyVars(vars))
+			} else {
+				// warm root: the same field was resolved before with other arguments
+				_ = root.ResolveString(op+" { "+field+sub+" }", "", nil)
+				res = root.ResolveString(text, "", copyVars(vars))
+			}
+		})
+		c.Eval("method|"+text+fmt.Sprint(vars), true)
+		c.Bucket("method", field)
+		c.Count("method_calls_compared_with_direct_go_call", 1)
+		if i < 2 {
+			c.Sample(map[string]interface{}{"document": text, "vars": fmt.Sprint(vars), "direct_go_call": ref.Render(want)})
+		}
+		data, _ := res["data"].(map[string]interface{})
+		got := ref.Canon(data["r"])
+		if pv != nil || res["errors"] != nil || !ref.Equal(got, want) {
+			c.Violation("c02-method-vs-direct-call", map[string]interface{}{"document": text, "vars": fmt.Sprintf("%#v", vars), "effective_arguments": fmt.Sprint(eff),
+				"direct_go_call": ref.Render(want), "resolved": ref.Render(got), "errors": fmt.Sprint(res["errors"]), "panic": fmt.Sprint(pv)})
+		}
+	}
+}
